@@ -726,7 +726,7 @@ func checkNames(c NamesCase, r *kit.R) {
 func TestPropNames(t *testing.T) {
 	kit.Run(t, kit.Spec[NamesCase]{ID: "C33", Name: "names", Gen: genNames, Check: checkNames,
 		Rule:  "random pkix.Name (0..8 attributes out of the 17 JSON-visible attribute types, built through the struct fields + ExtraNames or through FillFromRDNSequence), AttributeTypeAndValue, OtherName, Extension, EDIPartyName, AuxOID, x509.GeneralNames (8 member lists incl. directory names, IPs, other names, registered ids), NameConstraints (14 lists, permitted and excluded), GeneralSubtreeIP (IPv4/IPv6, every prefix length); strings include empty, JSON/HTML-special, non-ASCII and control characters; non-trivial: at least one optional member absent; distinct by case hash",
-		Quick: 2500, Thorough: 40000,
+		Quick: 2500, Thorough: 150000,
 		Assumptions: []string{
 			"strings are valid UTF-8 (encoding/json replaces invalid bytes); attribute values are non-empty strings (X.520 DirectoryString SIZE (1..MAX); MarshalJSON documents non-string values as omitted); attributes outside the 17 known types are tagged json:\"-\" and not generated",
 			"object identifiers are valid (>= 2 arcs, arcs <= 2^31-1); an AttributeTypeAndValue may have an empty type",
